@@ -190,6 +190,7 @@ void h_discover(void) {
         V_ASSERT(ST->mapper_known == 1 && mac6_eq(ST->mapper_real.a, in.st.mreal), "C05: a foreign Discover does not change the mapper");
     }
     V_ASSERT(g_nsend <= 1, "C02,C03: at most one Hello per Discover");
+    assert_mapp_step(ST);
     V_ASSERT(ST->see_list_count == pre_n, "C07: a Discover leaves recorded observations alone"); (void)pre_head;
     {
         struct snap sn; snapshot_list(ST, &sn);
